@@ -177,6 +177,42 @@ func wireContentString(c model.WireContent) string {
 	return "zero=" + fstr(c.Zero) + " pos={" + ModelContent(&model.MapStore{M: c.Pos}) + "} neg={" + ModelContent(&model.MapStore{M: c.Neg}) + "}"
 }
 
+// wireVsHeld compares what the independent decoder read with what the sketch
+// holds. Weights travel through the documented (w+1)-1 transform, once per
+// encoded count (at most two counts per bin: buffered entries and a page), so
+// a weight that is not exactly representable after +1 may come back within
+// 4 ulps of (1+w); everything else must be identical.
+func wireVsHeld(c model.WireContent, q Sketch) string {
+	cmp := func(name string, read map[int]float64, st store.Store) string {
+		held := map[int]float64{}
+		st.ForEach(func(i int, w float64) bool { held[i] += w; return false })
+		if len(held) != len(read) {
+			return fmt.Sprintf("%s: %d bins read, %d held", name, len(read), len(held))
+		}
+		for k, w := range held {
+			r, ok := read[k]
+			if !ok {
+				return fmt.Sprintf("%s: bin %d missing", name, k)
+			}
+			if r != w && !(math.Abs(r-w) <= 4*math.Ldexp(1, -52)*(1+w) && (w+1)-1 != w) {
+				return fmt.Sprintf("%s: bin %d read %v, held %v", name, k, r, w)
+			}
+		}
+		return ""
+	}
+	if d := cmp("positive", c.Pos, q.GetPositiveValueStore()); d != "" {
+		return d
+	}
+	if d := cmp("negative", c.Neg, q.GetNegativeValueStore()); d != "" {
+		return d
+	}
+	z := q.GetZeroCount()
+	if c.Zero != z && c.Zero != (z+1)-1 {
+		return fmt.Sprintf("zero weight read %v, held %v", c.Zero, z)
+	}
+	return ""
+}
+
 // checkC07: every encoding parses with the independent decoder written from
 // the documentation, to the same content; the plain decoder accepts the
 // encoding of the exact-statistics variant.
@@ -195,8 +231,8 @@ func checkC07(w *SketchWorld, slot int) (fails []mc.Fail) {
 			return
 		}
 		c := model.ContentOf(blocks)
-		if got, want := wireContentString(c), SketchContent(q); got != want {
-			fail("C07.documented-format", "an independent decoder reads other content from % x\n  read: %s\n  held: %s", enc, got, want)
+		if d := wireVsHeld(c, q); d != "" {
+			fail("C07.documented-format", "an independent decoder reads other content from % x: %s\n  read: %s\n  held: %s", enc, d, wireContentString(c), SketchContent(q))
 			return
 		}
 		gamma, offset := mapParams(md.Map)
@@ -210,7 +246,7 @@ func checkC07(w *SketchWorld, slot int) (fails []mc.Fail) {
 		if sl.Exact && !q.IsEmpty() {
 			mn, _ := q.GetMinValue()
 			mx, _ := q.GetMaxValue()
-			if !c.HasStats || c.Count != q.GetCount() || c.Sum != q.GetSum() || c.Min != mn || c.Max != mx {
+			if !c.HasStats || c.Count != (q.GetCount()+1)-1 || c.Sum != q.GetSum() || c.Min != mn || c.Max != mx {
 				fail("C07.documented-format", "statistics blocks count=%v sum=%v min=%v max=%v; the sketch reports %v %v %v %v", c.Count, c.Sum, c.Min, c.Max, q.GetCount(), q.GetSum(), mn, mx)
 			}
 		}
@@ -218,15 +254,24 @@ func checkC07(w *SketchWorld, slot int) (fails []mc.Fail) {
 			fail("C07.documented-format", "a plain sketch wrote statistics blocks")
 		}
 		mc.Count("encodings_parsed", 1)
-		if sl.Exact && !md.Approx {
-			// the plain decoder accepts it and ignores the statistics
+		if sl.Exact {
+			// the plain decoder accepts it and ignores the statistics; the content is
+			// what the documentation assigns to the blocks (weights through +1/-1)
 			for _, t := range codecTargets {
 				dec, err := ddsketch.DecodeDDSketch(enc, t.Provider(), supplied(md, omit))
 				if err != nil {
 					fail("C07.plain-decodes-exact", "DecodeDDSketch of the encoding % x of a sketch with exact statistics failed: %v", enc, err)
 					return
 				}
-				if got, want := SketchContent(dec), expectedContent(t, md); got != want {
+				exp := NewSkModel(t, md.Spec, md.Map)
+				for _, k := range sortedKeys(c.Pos) {
+					exp.Pos.Add(k, c.Pos[k])
+				}
+				for _, k := range sortedKeys(c.Neg) {
+					exp.Neg.Add(k, c.Neg[k])
+				}
+				exp.Zero = c.Zero
+				if got, want := SketchContent(dec), exp.Content(); got != want {
 					fail("C07.plain-decodes-exact", "DecodeDDSketch (into %s stores) of the exact variant's encoding\n  got:  %s\n  want: %s", t, got, want)
 					return
 				}
@@ -870,7 +915,8 @@ func corpusSpecs(prop, tier string, depthQ, depthT int, exactToo bool, check fun
 				for _, v := range []float64{0, 1, -1, m.LowerBound(2), 7.3, -7.3, mn / 2, 1e4} {
 					sp.Ops = append(sp.Ops, skAdd(0, v))
 				}
-				sp.Ops = append(sp.Ops, skAddW(0, 1, 0.5), skAddW(0, -7.3, 2), skAddW(0, 0, 0.25), skAddW(0, 2.5, 1<<20), skAddRunV(0, 1.0, 70),
+				// 0.5 at two different values: fractional bins whose total equals the number of bins
+				sp.Ops = append(sp.Ops, skAddW(0, 1, 0.5), skAddW(0, 7.3, 0.5), skAddW(0, -7.3, 2), skAddW(0, 0, 0.25), skAddW(0, 2.5, 1<<20), skAddRunV(0, 1.0, 70),
 					skAdd(1, 1), skAdd(1, -7.3), skAddW(1, 0, 3), skAddW(1, 1e3, 3),
 					skMerge(0, 1), skClear(0), skReweight(0, 0.5), skCodec(0, 1, false, false), skReadEncode(0))
 				sp.Ops = append(sp.Ops, extra...)
@@ -916,7 +962,8 @@ func init() {
 		Rule:        "direction 1: every encoding of the corpus (distinct states of an explicit-state BFS over sketch histories, five producer store kinds, both variants, mapping embedded and omitted) is parsed by refwire, an independent decoder written only from the format documentation, and must yield the same bins, zero weight, mapping parameters and statistics; the plain decoder must accept every encoding of the exact-statistics variant. Direction 2: every well-formed stream of the documented grammar within bounds (<= 2 store blocks of either sign, three bin layouts, N <= 3 bins, first index in {-33,0,31}, deltas/strides in {-33,-2,-1,0,1,2,33,1000}, counts incl. 0, repeated blocks and indexes, zero-count blocks, mapping block before/between/after or supplied) is decoded by the implementation into five store kinds and compared with what the documentation assigns; distinct_nontrivial counts distinct contents",
 		Assumptions: []string{"refwire is trusted as a faithful reading of the comments in encoding/flag.go and encoding/encoding.go"},
 		Shards: func(tier string) []mc.Shard {
-			sh := shardsOfSketchSpecs(corpusSpecs("C07", tier, 3, 4, true, checkC07))
+			// non-dyadic weights give nine-byte count blocks (both decoders must frame them alike)
+			sh := shardsOfSketchSpecs(corpusSpecs("C07", tier, 3, 4, true, checkC07, skAddW(0, 3.3, 0.1), skAddW(0, -2.2, 1.0/3)))
 			return append(sh, grammarShards(tier)...)
 		},
 		ShardBudget: budget(70*time.Second, 12*time.Minute),
